@@ -21,7 +21,7 @@ var commonAssume = []string{
 }
 
 var Metas = map[string]Meta{
-	"C01": {Category: "exploration", Rule: "every 197th run index is a length sweep (same setting and data for 400 (thorough 1200) consecutive input lengths); otherwise one run = one Writer history (constructor, level, window, dict, data spec, Write/Flush partition, Close) into an accepting simulated sink; non-trivial = constructor accepted and at least one byte written; distinct = distinct schedule signature (sequence of op kinds, sink-call size buckets and outcomes)"},
+	"C01": {Category: "exploration", Rule: "every 197th run index is a length sweep (same setting and data for 400 (thorough 800) consecutive input lengths, half of them started shortly before the emitted size crosses a multiple of 8 KiB); every 193rd is a content sweep (same shape, 40..600 consecutive data seeds: dense far copies, deep-histogram kinds headtail/dyadic; or one burst of maximal-width tokens moved across the 8 KiB output hand-over in 2-byte steps); otherwise one run = one Writer history (constructor, level, window, dict, data spec, Write/Flush partition, Close) into an accepting simulated sink; non-trivial = constructor accepted and at least one byte written; distinct = distinct schedule signature (sequence of op kinds, sink-call size buckets and outcomes)"},
 	"C09": {Category: "exploration", Rule: "one run = two Writers fed the same data and Flush positions with different Write partitions; non-trivial = the two partitions differ and data is non-empty; distinct = distinct schedule signature of the first history"},
 	"C10": {Category: "exploration", Rule: "every 199th run index is a length sweep (Write(L), Flush, Close for 300 (thorough 600) consecutive L); otherwise one run = one Writer history with the prefix invariant evaluated at every acknowledged Flush; non-trivial = at least one Flush returned nil; distinct = distinct schedule signature"},
 	"C12": {Category: "exploration", Rule: "one run = history h1 (possibly abandoned, failed, closed), Reset, history h2, compared with a fresh Writer running h2; non-trivial = h1 wrote at least one byte; distinct = distinct schedule signature"},
@@ -37,8 +37,8 @@ var Metas = map[string]Meta{
 	"C11": {Category: "exploration", Rule: "one run = producer task (Writer history with Flush points, stdlib or fastgo encoder) and consumer task (fastgo Reader) on a gated pipe under a seeded scheduler; the driver releases one flush point at a time and evaluates at every quiescence whether all data before that point was returned; afterwards the source stalls, fails or delivers unrelated bytes; non-trivial = at least two flush points; distinct = distinct schedule signature (incl. task switches)"},
 	"C13": {Category: "exploration", Rule: "one run = 1..3 earlier streams (read partially, to EOF or into an error), Reset, next input (valid, back-references before its start, malformed), compared with a fresh Reader; non-trivial = at least one earlier stream; distinct = distinct schedule signature"},
 	"C15": {Category: "fault_enumeration", Rule: "for each sampled valid stream/container the source fails after k bytes for every k in 0..len (thorough, and quick when len <= 512; otherwise first/last 8 and a stratified sample), error alone or with the last bytes; one evaluation = one (stream, k) run; non-trivial = the injected error was actually returned by the source; distinct = distinct schedule signature"},
-	"C17": {Category: "exploration", Rule: "deterministic pass: one run = 2..8 independent Writer/Reader tasks switched by the seeded scheduler at every seam call, each compared with its solo run; non-trivial = more task switches than tasks; distinct = distinct schedule signature. Free-running pass (race-detector build): the same kind of task sets started behind one barrier with no synchronisation at GOMAXPROCS 2/4/16, outputs compared with solo runs, race reports collected (this pass does not control the interleaving and says so)"},
-	"C18": {Category: "exploration", CrossLevel: true, Rule: "one run = one level-independent input (valid, truncated or malformed; flate/gzip/zlib) read with the same source/Read schedule in worker processes forced to each runnable level; the parent compares (output bytes, error kind) across levels; non-trivial = input longer than the assembly loop's 24-byte slop; distinct = distinct schedule signature"},
+	"C17": {Category: "exploration", Rule: "task sets: 70% random mixes of 2..8 independent Writers/Readers, 30% 4..8 instances of one package each cycling through 5..30 short streams with a preset dictionary of its own. Deterministic pass: one run = one task set switched by the seeded scheduler at every seam call, each compared with its solo run; non-trivial = more task switches than tasks; distinct = distinct schedule signature. Free-running pass (race-detector build): the same kind of task sets started behind one barrier with no synchronisation at GOMAXPROCS 2/4/16, outputs compared with solo runs, race reports collected (this pass does not control the interleaving and says so)"},
+	"C18": {Category: "exploration", CrossLevel: true, Rule: "one run = one level-independent input (valid, truncated or malformed; flate/gzip/zlib) read with the same source/Read schedule in worker processes forced to each runnable level; the parent compares (output bytes, error kind) across levels; every 5th run index is a Writer history and every 191st a content sweep (as in C01) judged with C01's and C19's oracles at the forced level; non-trivial = input longer than the assembly loop's 24-byte slop; distinct = distinct schedule signature"},
 	"C19": {Category: "exploration", Rule: "one run = one Writer history with data built around the window edge; non-trivial = the output contains matches and the input is longer than the window; distinct = distinct schedule signature"},
 }
 
